@@ -11,7 +11,7 @@ from ..runner import Result
 
 ID = "C13"
 LEVEL = "exploration"
-BUDGET = {"quick": {"cases": 2600, "soft_deadline": 200}, "thorough": {"cases": 60000, "soft_deadline": 1500}}
+BUDGET = {"quick": {"cases": 10000, "soft_deadline": 200}, "thorough": {"cases": 60000, "soft_deadline": 1500}}
 RULE = (
     "case = (network n<=6 [7 thorough], weighted to motif-avoidant cores; configuration; history of <=5 public operations "
     "of all kinds incl. attractor queries on unexpanded/skipped nodes, skipping, pickle/reclaim, control); oracle = loop "
